@@ -85,6 +85,8 @@ class Nff(object):
                       if self.f1[i] is not None and self.f1[i + 1] is not None
                       and abs(self.f1[i + 1] - self.f1[i]) > 0.5]
         self.first_f1 = min(i for i in range(n) if self.f1[i] is not None)
+        # rows whose tabulated f1 is zero or negative (dips below absorption edges)
+        self.nonpos = [i for i in range(n) if self.f1[i] is not None and self.f1[i] <= 0]
         # rows that are not inside a strictly increasing stretch: the interpolant is ambiguous there
         self.bad_rows = set()
         for i in range(n - 1):
